@@ -314,10 +314,12 @@ func OpenRelation(dbName string, forceWALSync bool) (*RelationService, error) {
 		return nil, err
 	}
 	if err := fs.open(); err != nil {
+		fs.abandon()
 		return nil, err
 	}
 	wal, err := newWal(dbName, forceWALSync)
 	if err != nil {
+		fs.abandon()
 		return nil, err
 	}
 	return &RelationService{
